@@ -219,8 +219,13 @@ func ruleExistsLoop(w *World, r *Report) {
 		return
 	}
 	c := calls[0]
-	if !l1.isElem(resolve(c.Call.Args[0])) || !l2.isElem(resolve(c.Call.Args[1])) {
-		r.add("EXISTS-LOOP", fn+" / pair call", w.Pos(c.Pos()), Violated, "the pair form is not applied to (element of list 1, element of list 2)")
+	a0, a1 := resolve(c.Call.Args[0]), resolve(c.Call.Args[1])
+	if (l1.isElem(a0) && l1.isElem(a1)) || (l2.isElem(a0) && l2.isElem(a1)) {
+		r.add("EXISTS-LOOP", fn+" / pair call", w.Pos(c.Pos()), Violated, "the pair form is applied to two elements of the same list")
+	} else if l2.isElem(a0) && l1.isElem(a1) {
+		r.add("EXISTS-LOOP", fn+" / pair call", w.Pos(c.Pos()), Discharged, "pair form applied to the two loop elements (in the other order; the relation is symmetric)")
+	} else if !l1.isElem(a0) || !l2.isElem(a1) {
+		r.add("EXISTS-LOOP", fn+" / pair call", w.Pos(c.Pos()), Undecided, "the arguments of the pair form are not recognisably the two loop elements ("+shortInstr(c)+")")
 	} else {
 		r.add("EXISTS-LOOP", fn+" / pair call", w.Pos(c.Pos()), Discharged, "pair form applied to the two loop elements")
 	}
@@ -356,7 +361,13 @@ func ruleLineIncludes(w *World, r *Report) {
 	if okArgs {
 		r.add("PASSTHRU", fn+" / end-point lookup", w.Pos(pc.Pos()), Discharged, "point lookup on {start, end} at (hZoom, vZoom)")
 	} else {
-		r.add("PASSTHRU", fn+" / end-point lookup", w.Pos(pc.Pos()), Violated, "the end-point lookup does not receive {start, end}, hZoom, vZoom unchanged")
+		st := worst(argStatus(pc.Call.Args[1], f.Params[2]), argStatus(pc.Call.Args[2], f.Params[3]))
+		if vals, ok := sliceLiteral(pc.Call.Args[0]); ok && len(vals) == 2 {
+			st = worst(st, argStatus(vals[0], f.Params[0]), argStatus(vals[1], f.Params[1]))
+		} else {
+			st = worst(st, Undecided)
+		}
+		r.add("PASSTHRU", fn+" / end-point lookup", w.Pos(pc.Pos()), st, "the end-point lookup does not receive {start, end}, hZoom, vZoom unchanged ("+shortInstr(pc)+")")
 	}
 	ends := extractOf(pc, 0)
 	// U = Unique(ends) stored into the accumulator variable (an Alloc, because a closure appends to it)
@@ -477,21 +488,17 @@ func ruleLineIncludes(w *World, r *Report) {
 			r.add("PASSTHRU", gname+" / zooms", w.Pos(g.Pos()), Undecided, "the recursion does not receive hZoom and vZoom as parameters")
 			continue
 		}
-		okAll := true
+		zst := Discharged
 		for _, c := range self {
-			if resolve(c.Call.Args[hz]) != ssa.Value(g.Params[hz]) || resolve(c.Call.Args[vz]) != ssa.Value(g.Params[vz]) {
-				okAll = false
-			}
+			zst = worst(zst, argStatus(c.Call.Args[hz], g.Params[hz]), argStatus(c.Call.Args[vz], g.Params[vz]))
 		}
 		for _, c := range callsTo(g, func(x *ssa.Function) bool { return x == onPoints }) {
-			if resolve(c.Call.Args[1]) != ssa.Value(g.Params[hz]) || resolve(c.Call.Args[2]) != ssa.Value(g.Params[vz]) {
-				okAll = false
-			}
+			zst = worst(zst, argStatus(c.Call.Args[1], g.Params[hz]), argStatus(c.Call.Args[2], g.Params[vz]))
 		}
-		if okAll {
+		if zst == Discharged {
 			r.add("PASSTHRU", gname+" / zooms", w.Pos(g.Pos()), Discharged, fmt.Sprintf("%d recursive calls and the point lookups receive the zoom parameters unchanged", len(self)))
 		} else {
-			r.add("PASSTHRU", gname+" / zooms", w.Pos(g.Pos()), Violated, "a recursive call or point lookup does not receive the zoom parameters unchanged")
+			r.add("PASSTHRU", gname+" / zooms", w.Pos(g.Pos()), zst, "a recursive call or point lookup does not receive the zoom parameters unchanged")
 		}
 		// callback invoked on every path from entry to any return
 		stop := map[*ssa.BasicBlock]bool{}
